@@ -529,25 +529,25 @@ def ps_hints(engine, ob):
         return sol.check() == z3.unsat
 
     hints = []
-    budget = 60
+    left = 60
     for n, lst in apps.items():
         news = [t for t in lst if t.get_id() in goal_ids]
         for tn in news:
             Sn = tn.arg(0)
             for to in lst:
-                if to.get_id() == tn.get_id() or budget <= 0:
+                if to.get_id() == tn.get_id() or left <= 0:
                     continue
                 So = to.arg(0)
                 if n == "PS" and not tn.arg(1).eq(to.arg(1)):
                     continue
-                budget -= 1
+                left -= 1
                 if entails(Sn == So):
                     hints.append(Sn == So)
                     continue
                 for k in ukeys:
-                    if budget <= 0:
+                    if left <= 0:
                         break
-                    budget -= 1
+                    left -= 1
                     if entails(z3.And(Sn == z3.Store(So, k, True), z3.Not(So[k]))):
                         if n == "PS":
                             hints.append(tn == tn.arg(1)[k] * to)
